@@ -11,7 +11,7 @@ def main():
     chk = Check('C18', [MOD + '/pkg/protoio', 'bufio', 'io', 'encoding/binary'], 'pkg/protoio', ['C18/zz_verif_c18.go'],
                 installers=[protomsg.install], init_pkgs=['io', 'bufio', 'encoding/binary'], prelude_pkgname='protoio')
     P = MOD + '/pkg/protoio.'
-    chk.load([P + n for n in ('VerifC18RoundTrip', 'VerifC18Limit', 'VerifC18Arbitrary', 'VerifC18Witness')])
+    chk.load([P + n for n in ('VerifC18RoundTrip', 'VerifC18Limit', 'VerifC18Arbitrary', 'VerifC18LongHeader', 'VerifC18Witness')])
     jobs = []
     L = 2 if t == 'quick' else 3
     for kind in (0, 1, 2):
@@ -29,6 +29,8 @@ def main():
     for n in range(0, (7 if t == 'quick' else 10) + 1):
         for kind in (1, 2):
             jobs.append(Job(P + 'VerifC18Arbitrary', (kind, n, 2), cfg={'unwind': 16}))
+    for n in ((10, 11) if t == 'quick' else (9, 10, 11, 12)):
+        jobs.append(Job(P + 'VerifC18LongHeader', (n, 2), cfg={'unwind': 16}))
     jobs.append(Job(P + 'VerifC18Witness', (), witness=True))
     res = chk.run_jobs(jobs)
     finish(chk, res, t,
